@@ -86,10 +86,13 @@ void AbstractParameterAliasable::aliasParameters(const std::string& p1, const st
     throw Exception("AbstractParameterAliasable::aliasParameters. Parameter " + p2 + " does not exist in independent parameters. Perhaps it is already aliased to a parameter and can't be aliased twice.");
 
   string id = "__alias_" + p2 + "_to_" + p1;
-  string idCheck = "__alias_" + p1 + "_to_" + p2;
 
-  if (aliasListenersRegister_.find(idCheck) != aliasListenersRegister_.end())
-    throw Exception("AbstractParameterAliasable::aliasParameters. Trying to alias parameter " + p2 + " to " + p1 + ", but parameter " + p1 + " is already aliased to parameter " + p2 + ".");
+  // p2 must be neither p1 nor one of the parameters p1 follows, directly or through a chain of aliases:
+  for (string source = p1; source != ""; source = getFrom(getNamespace() + source))
+  {
+    if (source == p2)
+      throw Exception("AbstractParameterAliasable::aliasParameters. Trying to alias parameter " + p2 + " to " + p1 + ", but parameter " + p1 + " is already aliased to parameter " + p2 + ".");
+  }
   Parameter* param1 = &getParameter_(p1);
   Parameter* param2 = &getParameter_(p2);
 
